@@ -87,6 +87,12 @@ def run(res, tier, seed):
               "    addi a0, a0, 1\n    ret\n",
               "main:\n    jal fa\n    jal fb\n    jal fc\n    li a7, 10\n    ecall\nfa:\n    li a0, 1\n    j tail\nfb:\n    li a0, 2\n"
               "    j tail\nfc:\n    li a0, 3\ntail:\n    addi a0, a0, 1\n    ret\n"]
+    # several items at one location (a function on the first line that is also jumped to), and an
+    # entry shared by functions that carries two labels
+    shared += ["fn_a:\n    addi a0, a0, -1\n    beqz a0, out\n    j fn_a\nout:\n    ret\nmain:\n    jal fn_a\n    addi a7, zero, 10\n"
+               "    ecall\n",
+               "main:\n    jal fn_a\n    jal fn_b\n    jal fn_c\n    addi a7, zero, 10\n    ecall\nfn_a:\n    addi a0, a0, 1\nfn_b:\nfn_c:\n"
+               "    addi a0, a0, 2\n    ret\n"]
     srcs = shared + programs(rng, n)
     # two-return functions whose paths disagree about a saved register / sp, in both file layouts:
     # the diagnostics must not depend on which return the (hash-ordered) markup makes the exit
@@ -170,7 +176,16 @@ def run(res, tier, seed):
         if strip(model[j]) != strip(model_d[j]):
             continue
         amb = not ambiguous_free(model[j])
+        # the graph itself (which return is the exit: known finding F-28) may depend on hash order
+        # although the diagnostics do not: the model's two orders tell; such programs are not run in
+        # --yaml mode
+        gc = run_lines_isolated(DRIVER, [pipe_req("cfg", [("m.s", s)]), pipe_req("cfg", [("m.s", s)]) + " desc"],
+                                chunk=4, timeout=60)
+        graph_dep = [l for l in gc[0] if l.startswith("CFG")] != [l for l in gc[1] if l.startswith("CFG")]
         for mode in (["--json"], ["--compact", "--no-color"], ["--no-color"], ["--yaml", "--no-output"]):
+            if mode[0] == "--yaml" and graph_dep:
+                stats["yaml_skipped_exit_choice_F28"] = stats.get("yaml_skipped_exit_choice_F28", 0) + 1
+                continue
             outs = set()
             for _ in range(4):
                 p = subprocess.run([RVA, "lint"] + mode + [path], stdout=subprocess.PIPE, stderr=subprocess.DEVNULL,
